@@ -345,6 +345,13 @@ func CheckPath(pkgDir, abs string, dirOK map[string]bool) (info fs.FileInfo, rel
 		if _, err := os.Stat(filepath.Join(dir, "go.mod")); err == nil {
 			return nil, "", fmt.Errorf("cannot embed %s %s: in different module", what, rel)
 		}
+		if dir != abs {
+			// As in cmd/go: the directories on the way to the file must be real
+			// directories, not e.g. symbolic links to directories.
+			if info, err := os.Lstat(dir); err == nil && !info.IsDir() {
+				return nil, "", fmt.Errorf("cannot embed %s %s: in non-directory %s", what, rel, r)
+			}
+		}
 		elem := filepath.Base(dir)
 		if IsBadName(elem) {
 			if dir == abs {
